@@ -249,6 +249,38 @@ def rule_WR3(rep, prog):
                                 sample={"fn": fname, "returns_when": "%s == %d" % (field, awaited)})
 
 
+def rule_MP4(rep, prog):
+    rid = rep.rule("C05-MP4", "group notification hand-off works on a closed generation: _dispatch_group_wake detaches the whole notification list with one atomic exchange "
+                   "of dg_notify_tail (release) before the first notification block is submitted, and the submission loop never goes back to the live list "
+                   "(dg_notify_head / dg_notify_tail) - a notification registered after the group was re-entered belongs to the next generation", floor=2)
+    fn = prog.fn("_dispatch_group_wake")
+    rep.saw(fn)
+    subs = [c for c in fn.all_insts() if c.op == "call" and c.callee in ("_dispatch_continuation_async", "dx_push", "_dispatch_continuation_push")]
+    if not subs:
+        rep.unknown(rid, "_dispatch_group_wake: submission of the notification blocks not found")
+        return
+    xch = [i for i in fn.all_insts() if i.op == "atomicrmw" and i.d.get("rmw") == "xchg" and "dg_notify_tail" in prog.fields(i)
+           and i.ops[-1][0] == "c" and i.ops[-1][1] == 0]
+    ok = bool(xch) and all(any(fn.block_dominates(x.block.id, c.block.id) and x.block.id != c.block.id for x in xch) for c in subs)
+    rep.require(rid, ok, subs[0].loc, fn.name, "no-snapshot-before-notify",
+                "_dispatch_group_wake submits notification blocks without first detaching the list (atomic exchange of dg_notify_tail with NULL): notifications appended "
+                "while it runs - registered for the NEXT generation after the group was re-entered - are fired at once, before the work they wait for has completed",
+                sample={"exchange": [x.loc for x in xch], "submits": [c.loc for c in subs]})
+    ok2 = not xch or all(x.d.get("ord") in ("release", "acq_rel", "seq_cst") for x in xch)
+    rep.require(rid, ok2, (xch[0].loc if xch else subs[0].loc), fn.name, "snapshot-exchange-not-release",
+                "the exchange that detaches the notification list is weaker than release")
+    # the loop: blocks on a cycle through a submission
+    loop = set()
+    for c in subs:
+        fwd = fn.reach_from_block(c.block.id)
+        if c.block.id in fwd:
+            loop |= {b for b in fwd if c.block.id in fn.reach_from_block(b)}
+    live = [i for i in fn.all_insts() if i.block.id in loop and i.op in ("load", "store", "cmpxchg", "atomicrmw") and prog.fields(i) & {"dg_notify_head", "dg_notify_tail"}]
+    rep.require(rid, bool(loop) and not live, (live[0].loc if live else subs[0].loc), fn.name, "notify-loop-reads-live-list",
+                "the loop that submits the notification blocks goes back to dg_notify_head / dg_notify_tail: it consumes notifications appended after the generation "
+                "completed instead of the detached snapshot", sample={"loop_blocks": sorted(loop), "live": [i.loc for i in live]})
+
+
 def run(rep, tier="quick", srcdir=None, only=None):
     prog, units = load(UNITS, tier, srcdir)
     rep.units = units
@@ -320,10 +352,15 @@ def run(rep, tier="quick", srcdir=None, only=None):
         C09.rule_HDR(rep, srcdir)
     if want("C03-MP7"):
         C03.rule_MP7(rep, prog, q)
+    if want("C03-MP14"):
+        # ... and the item really runs under every level: the uncontended fast paths may skip the descent only when there is no level below (shared with C03)
+        C03.rule_MP14(rep, prog, q)
+    if want("C05-MP4"):
+        rule_MP4(rep, prog)
 
 
 MANIFEST = {
-    "technique": "role-based memory-order rules over every atomic site of the LLVM IR (roles from bit-level transition effects + a confirmed reference table), dominance rules",
+    "technique": "role-based memory-order rules over every atomic site of the LLVM IR (roles from bit-level transition effects + a confirmed reference table), dominance rules + snapshot-closure rule on the group notification list (one release exchange dominates the submissions, the loop never re-reads the live list)",
     "level": "every atomic hand-off site in the library (dq_state roles derived from effects; MPSC lists, thread events, groups, semaphores, once, "
              "refcounts, timers via a read-and-confirmed table with instance floors) is checked to be no weaker than its role demands; slow sync paths "
              "are checked to wait before returning and to re-validate after kernel waits; hardware visibility is out of scope",
